@@ -83,8 +83,8 @@ var plans = map[string]plan{
 		Level:    "exploration",
 		Rule:     "case = load/reload/query history on StrMap[int], StrMap[struct] and Str2Str instances: key sets of sizes around every entry of the prime table (0..1000, thorough up to 2*10^5) with adversarial key shapes (empty key, all proper prefixes of a long key, shared prefixes/suffixes, one-bit near-duplicates, mixed and equal lengths), LoadFromMap/LoadFromSlice sequences growing and shrinking one instance, failed (length-mismatch) loads in between, never-loaded and empty maps; probes = every key, key +/- one byte, prefixes, suffixes, bit-flips, keys of earlier rounds, random strings; every answer (Get, Len, Item enumeration) compared with a Go map. Fresh instances per case give fresh hash seeds. Non-trivial iff n >= 2 or a reload or an empty/prefix key; distinct by case index (hash seeds differ per instance).",
 		Required: []string{"map queries compared", "failed loads checked", "never-loaded/empty cases", "load cycles"},
-		Quick:    []job{{"plain", 8}},
-		Thorough: []job{{"gcstress", 4}, {"plain", 16}, {"race", 4}},
+		Quick:    []job{{"plain", 8}, {"hooks", 2}},
+		Thorough: []job{{"gcstress", 4}, {"plain", 16}, {"race", 4}, {"hooks", 4}},
 	},
 	"C11": {
 		Level:    "exploration",
